@@ -288,6 +288,14 @@ def field_alterations(orig, plan):
     alts.append(('tgt.btsd+attached-original', {}, {tnum: dict(btsd=tgt['btsd'][:-1] + bytes([tgt['btsd'][-1] ^ 1])),
                                                    bib['num']: dict(btsd=asb_edit(edit_msg(0, attach_original)))}))
     alts.append(('asb.source', {}, {bib['num']: dict(btsd=asb_edit(set_source))}))
+
+    def set_source_lookalike(new):
+        # another spelling that a lenient reader takes for the same node: without (or with) the trailing slash
+        new['source'] = new['source'][:-1] if new['source'].endswith('/') and new['source'].count('/') == 3 else new['source'] + '/'
+
+    alts.append(('asb.source-lookalike', {}, {bib['num']: dict(btsd=asb_edit(set_source_lookalike))}))
+    if pri['source'].endswith('/') and pri['source'].count('/') == 3:
+        alts.append(('pri.source-lookalike', dict(source=pri['source'][:-1]), {}))
     alts.append(('asb.scope', {}, {bib['num']: dict(btsd=asb_edit(set_scope))}))
     alts.append(('cose.tag', {}, {bib['num']: dict(btsd=asb_edit(edit_msg(0, flip_tag)))}))
     alts.append(('cose.protected', {}, {bib['num']: dict(btsd=asb_edit(edit_msg(0, flip_prot)))}))
